@@ -53,14 +53,14 @@ type op struct {
 //	        of m larger than 5, m the length of the underlying real FFT.
 //	gCosSin gReal + sqrt(n): cost/sint post-process the real FFT of length
 //	        n-1 / n+1 with running sums (x[i] = x[i-2] + ...).
-//	gRadix  sqrt(n): the radix-2/4 functions document that their twiddles
+//	gRadix  2*sqrt(n): the radix-2/4 functions document that their twiddles
 //	        are built by successive multiplication "so numerical
 //	        [in]accuracies can accumulate".
 func gNone(n int) float64  { return 0 }
 func gReal(n int) float64  { return 16 * float64(bigPrimeSum(n)) }
 func gDCT(n int) float64   { return 16*float64(bigPrimeSum(n-1)) + math.Sqrt(float64(n)) }
 func gDST(n int) float64   { return 16*float64(bigPrimeSum(n+1)) + math.Sqrt(float64(n)) }
-func gRadix(n int) float64 { return math.Sqrt(float64(n)) }
+func gRadix(n int) float64 { return 2 * math.Sqrt(float64(n)) }
 
 // bigPrimeSum returns the sum (with multiplicity) of the prime factors of m
 // that are larger than 5.
@@ -343,7 +343,7 @@ func (o *op) lengths(g *vlib.G) []int {
 	return ns
 }
 
-// Quick tier: every n in 1..200 plus a menu of larger lengths: 3^5, 2^8, 7^3,
+// Quick tier: every n in 1..128 plus a menu of larger lengths: 3^5, 2^8, 7^3,
 // 2^3*3^2*5, the prime with the largest observed real-FFT error (467),
 // 2^2*5^3, the largest prime below 512 and 2^9.
 var quickExtra = []int{243, 256, 343, 360, 467, 500, 509, 512}
@@ -352,7 +352,7 @@ func generalLengths(g *vlib.G) []int {
 	if g.Thorough() {
 		return vlib.Ints(1, 512)
 	}
-	return append(vlib.Ints(1, 200), quickExtra...)
+	return append(vlib.Ints(1, 128), quickExtra...)
 }
 
 // denseInput is the fixed dense integer-valued test vector.
